@@ -134,7 +134,11 @@ theorem parseNode_printNode (n : Node) (h : NodeOK n) : parseNode (printNode n) 
 structure LeafLaws (L : Leaf) : Prop where
   unq_quote : ∀ i, L.unquote (L.quote i) = some i
   quote_shape : ∀ i, ∃ body, L.quote i = dq :: (body ++ [dq])
-  time_round : ∀ t, L.parseTime (L.fmtTime t) = some t
+  /-- printing then parsing gives the time back — for the instants the format can write (`10000-01-01T…` is printed
+      but not read: the law without this condition is false of Go, and the real code fails there) -/
+  time_round : ∀ t, L.timeOK t = true → L.parseTime (L.fmtTime t) = some t
+  /-- … and the parser yields only such instants -/
+  time_parsed_ok : ∀ s t, L.parseTime s = some t → L.timeOK t = true
   time_noDq : ∀ t, dq ∉ L.fmtTime t
   time_nonempty : ∀ t, L.fmtTime t ≠ []
   float_round : ∀ b, L.parseFloat (L.fmtFloat b) = some b
@@ -148,7 +152,12 @@ theorem drop_left' (A B : Bytes) : (A ++ B).drop A.length = B := by
   | nil => simp
   | cons a A ih => simpa using ih
 
-theorem parsePred_printPred (L : Leaf) (hL : LeafLaws L) (p : Pred) : parsePred L (printPred L p) = some p := by
+/-- A predicate whose anchor the text format can write. -/
+def PredOK (L : Leaf) : Pred → Prop
+  | .imm _ => True
+  | .tmp _ t => L.timeOK t = true
+
+theorem parsePred_printPred (L : Leaf) (hL : LeafLaws L) (p : Pred) (hp : PredOK L p) : parsePred L (printPred L p) = some p := by
   cases p with
   | imm i =>
     obtain ⟨body, hq⟩ := hL.quote_shape i
@@ -232,7 +241,7 @@ theorem parsePred_printPred (L : Leaf) (hL : LeafLaws L) (p : Pred) : parsePred 
         simp only [List.mem_cons, not_or] at hft
         simp only [List.head?_cons, beq_eq_false_iff_ne, ne_eq, Option.some.injEq]
         exact fun e => hft.1 e.symm
-    simp only [hne2, Bool.false_eq_true, if_false, hnq, Bool.and_false, Bool.false_and, hL.time_round, Option.map_some]
+    simp only [hne2, Bool.false_eq_true, if_false, hnq, Bool.and_false, Bool.false_and, hL.time_round t hp, Option.map_some]
 
 /-! ### Literals -/
 
@@ -736,9 +745,9 @@ def LitOK : Lit → Prop
   | .int i => IsI64 i
   | _ => True
 
-def ObjOK : Obj → Prop
+def ObjOK (L : Leaf) : Obj → Prop
   | .node n => NodeOK n
-  | .pred _ => True
+  | .pred p => PredOK L p
   | .lit l => LitOK l
 
 theorem printLit_form (L : Leaf) (l : Lit) : ∃ v tname, printLit L l = (dq :: v) ++ sepLit ++ tname ∧ dq ∉ tname ∧ tname ≠ [] ∧
@@ -759,7 +768,7 @@ theorem parseLit_printLit (L : Leaf) (hL : LeafLaws L) (l : Lit) (h : LitOK l) :
   | text t => exact parseLit_printLit_text L t
   | blob bs => exact parseLit_printLit_blob L bs
 
-theorem parseObject_printObj (L : Leaf) (hL : LeafLaws L) (o : Obj) (h : ObjOK o) : parseObject L (printObj L o) = some o := by
+theorem parseObject_printObj (L : Leaf) (hL : LeafLaws L) (o : Obj) (h : ObjOK L o) : parseObject L (printObj L o) = some o := by
   unfold parseObject parseObjectWith
   cases o with
   | node n => simp only [printObj, parseNode_printNode n h]
@@ -787,11 +796,11 @@ theorem parseObject_printObj (L : Leaf) (hL : LeafLaws L) (o : Obj) (h : ObjOK o
       · intro c hc; rw [hlast] at hc; cases hc; decide
     have hn := parseNode_none_of_head_dq _ htrim hhead
     have hl := parseLit_none_of_last_rb L _ htrim hlast
-    simp only [printObj, hn, hl, parsePred_printPred L hL p, Option.map_some]
+    simp only [printObj, hn, hl, parsePred_printPred L hL p h, Option.map_some]
 
 /-! ### Triples -/
 
-theorem printObj_head (L : Leaf) (hL : LeafLaws L) (o : Obj) (h : ObjOK o) :
+theorem printObj_head (L : Leaf) (hL : LeafLaws L) (o : Obj) (h : ObjOK L o) :
     ∃ oh orest, printObj L o = oh :: orest ∧ [slash, dq].contains oh = true ∧ reSpace oh = false ∧
       (∀ c, (oh :: orest).getLast? = some c → asciiSpace c = false) := by
   cases o with
@@ -845,10 +854,10 @@ theorem printObj_head (L : Leaf) (hL : LeafLaws L) (o : Obj) (h : ObjOK o) :
       rw [this] at hc; cases hc; decide
 
 theorem parseTriple_printTriple (L : Leaf) (hL : LeafLaws2 L) (t : Triple)
-    (hs : NodeOK t.s) (hsty : noSpace t.s.ty) (hsid : noSpace t.s.id) (hp : noSpace t.p.id) (ho : ObjOK t.o) :
+    (hs : NodeOK t.s) (hsty : noSpace t.s.ty) (hsid : noSpace t.s.id) (hp : noSpace t.p.id) (hpo : PredOK L t.p) (ho : ObjOK L t.o) :
     parseTriple L (printTriple L t) = some t := by
   obtain ⟨s, p, o⟩ := t
-  simp only at hs hsty hsid hp ho
+  simp only at hs hsty hsid hp hpo ho
   obtain ⟨pb, hP, hPns⟩ := printPred_shape L hL p hp
   obtain ⟨oh, orest, hO, hohn, hohs, holast⟩ := printObj_head L hL.toLeafLaws o ho
   -- the subject: N0 ++ [gt], with no white space in N0, starting with '/'
@@ -935,7 +944,7 @@ theorem parseTriple_printTriple (L : Leaf) (hL : LeafLaws2 L) (t : Triple)
     rw [hl, e, drop_left']
   rw [hss, hsp, hso]
   have r1 := parseNode_printNode s hs
-  have r2 := parsePred_printPred L hL.toLeafLaws p
+  have r2 := parsePred_printPred L hL.toLeafLaws p hpo
   have r3 := parseObject_printObj L hL.toLeafLaws o ho
   unfold parseObject at r3
   simp only [r1, r2, r3]
